@@ -145,12 +145,34 @@ Fixpoint map_res {A B} (f:A -> res B) (l:list A) : res (list B) :=
   | x :: t => do y <- f x; do t' <- map_res f t; Ok (y :: t')
   end.
 
+(* periods = np.full(len(days), -1); periods[in_range] = values  (boolean-mask assignment) *)
+Fixpoint scatter (days:list Z) (fl:list bool) (vals:list Z) : list Z :=
+  match days with
+  | [] => []
+  | _ :: dt =>
+    match fl with
+    | true :: ft =>
+      match vals with
+      | v :: vt => v :: scatter dt ft vt
+      | [] => -1 :: scatter dt ft []
+      end
+    | false :: ft => -1 :: scatter dt ft vals
+    | [] => -1 :: scatter dt [] vals
+    end
+  end.
+
+(* after the fix of F-C20c only the in-range days index the map:
+     in_range = np.asarray(in_range, dtype=bool)
+     periods = np.full(len(days), -1, dtype=periods_by_day.dtype)
+     periods[in_range] = periods_by_day[days[in_range]]
+   `days[in_range]` with a boolean mask of another length raises IndexError, except that numpy
+   accepts an empty mask (selects nothing). *)
 Definition get_period_offsets (pbd days:list Z) (in_range:option (list bool)) : res (list Z) :=
   match in_range with
   | None => map_res (np_index 1 pbd) days
   | Some fl =>
-    (* np.where(in_range, days, 0); periods_by_day[...]; np.where(in_range, periods, -1) *)
-    do idx <- bcast (fun (b:bool) (d:Z) => if b then d else 0) fl days;
-    do per <- map_res (np_index 2 pbd) idx;
-    bcast (fun (b:bool) (p:Z) => if b then p else -1) fl per
+    if (len fl =? len days) || (len fl =? 0) then
+      do vals <- map_res (np_index 2 pbd) (mask days fl);
+      Ok (scatter days fl vals)
+    else Raise E_IndexError
   end.
